@@ -172,6 +172,33 @@ def handleSimilarity (cmd : String) (rest : List String) : Option String :=
       | some a, some b => let v := F64.normalize (F64.jaroF a b); s!"{v.mant} {v.frac}"
       | _, _ => "bad-op"
     | _ => some "bad-op"
+  | "jwf" =>
+    -- JaroWinkler on the binary64 model: boost = float64(n)/float64(d)
+    match rest with
+    | [a, b, boost, pre] => some <| match fromHex a, fromHex b, parseNats (boost.splitOn "/"), pre.toNat? with
+      | some a, some b, some bs, some pre =>
+        let bo : Option F64.Dbl := match bs with
+          | [n] => some (F64.div (F64.ofNat n) (F64.ofNat 1))
+          | [n, d] => if d = 0 then none else some (F64.div (F64.ofNat n) (F64.ofNat d))
+          | _ => none
+        match bo with
+        | some bo => let v := F64.normalize (F64.jaroWinklerF a b bo pre); s!"{v.mant} {v.frac}"
+        | none => "bad-op"
+      | _, _, _, _ => "bad-op"
+    | _ => some "bad-op"
+  | "strsimf" =>
+    match rest with
+    | [a, b, boost, pre] => some <| match fromHex a, fromHex b, parseNats (boost.splitOn "/"), pre.toNat? with
+      | some a, some b, some bs, some pre =>
+        let bo : Option F64.Dbl := match bs with
+          | [n] => some (F64.div (F64.ofNat n) (F64.ofNat 1))
+          | [n, d] => if d = 0 then none else some (F64.div (F64.ofNat n) (F64.ofNat d))
+          | _ => none
+        match bo with
+        | some bo => let v := F64.normalize (F64.stringSimilarityF a b bo pre); s!"{v.mant} {v.frac}"
+        | none => "bad-op"
+      | _, _, _, _ => "bad-op"
+    | _ => some "bad-op"
   | "jw" =>
     match rest with
     | [a, b, boost, pre] => some <| match fromHex a, fromHex b, parseRat boost, pre.toNat? with
